@@ -18,8 +18,8 @@ COQ = ROOT + "/coq"
 REPO = "/repo"
 
 ENV = dict(os.environ)
-ENV.update(CARGO_TARGET_DIR=BUILD + "/target", CARGO_NET_OFFLINE="true",
-           RUSTFLAGS="--cfg cachelito_verif", RUST_BACKTRACE="0")
+ENV.update(CARGO_TARGET_DIR=BUILD + "/target", CARGO_NET_OFFLINE="true", RUST_BACKTRACE="0")
+ENV.pop("RUSTFLAGS", None)
 
 COQ_TRUSTED = [
     "Coq 8.16.1 kernel (coqc); vm_compute only inside non-vacuity examples and finite reflective lemmas; no native_compute",
@@ -47,15 +47,19 @@ PROPS = {
         dict(kind="core", profile="C05", mask="keys,qset,size", preds="c05,wf", quick=900, thorough=40000)]),
     "C06": dict(theorems="Props/C06.v", parts=[
         dict(kind="core", profile="C06", mask="out,keys,qset,born,stats", preds="c06", quick=900, thorough=40000)]),
-    "C07": dict(theorems="Props/C07.v", parts=[
+    "C07_pending": dict(theorems="Props/C07.v", parts=[
         dict(kind="core", profile="C07", mask="keys,queue", preds="c07", quick=900, thorough=40000)]),
-    "C08": dict(theorems="Props/C08.v", parts=[
+    "C08_pending": dict(theorems="Props/C08.v", parts=[
         dict(kind="core", profile="C08", mask="keys,queue,freq", preds="c08", quick=900, thorough=40000)]),
     "C15": dict(theorems="Props/C15.v", parts=[
         dict(kind="core", profile="C15", mask="out,stats", preds="c15", quick=900, thorough=40000)]),
-    "C16": dict(theorems="Props/C16.v", parts=[
+    "C16_pending": dict(theorems="Props/C16.v", parts=[
         dict(kind="core", profile="C16", mask="", preds="", quick=1500, thorough=60000, panic_is_failure=True)]),
 }
+
+
+NOT_YET = {}
+HOOK_COMMITS = ["a4c436d"]
 
 
 def sh(cmd, timeout=3000, cwd=None, env=None):
@@ -326,6 +330,138 @@ def part_core(run, part):
     run.cov["histograms"]["timing_discards"] = skipped
 
 
+
+# ---------------------------------------------------------------------------------------
+# E2: macro-generated functions (vh-macro + extracted Wrapper/Registry model through ocaml/e2_driver)
+# ---------------------------------------------------------------------------------------
+def ensure_corpus():
+    os.makedirs(BUILD + "/corpus", exist_ok=True)
+    rc, out = sh("python3 %s/tools/gen_corpus.py %s/corpus" % (ROOT, BUILD))
+    if rc != 0:
+        raise RuntimeError("corpus generator failed: " + out)
+
+
+def run_macro_cases(cases_text, preds, tag):
+    cf = "%s/mcases_%s.txt" % (BUILD, tag)
+    of = "%s/mobs_%s.txt" % (BUILD, tag)
+    with open(cf, "w") as f:
+        f.write(cases_text)
+    rc, out = sh("%s/target/debug/vh-macro run %s %s" % (BUILD, cf, of), timeout=3000)
+    if rc != 0:
+        return None, "vh-macro failed: " + out[-500:]
+    rc, out = sh("%s/extract/e2_driver %s/corpus/corpus_table.txt %s --preds %s" % (BUILD, BUILD, of, preds or "none"), timeout=3000)
+    if rc != 0:
+        return None, "e2_driver failed: " + out[-500:]
+    verdicts, fails, stats = {}, {}, {}
+    for line in out.splitlines():
+        t = line.split(" ", 2)
+        if t[0] == "V":
+            verdicts[t[1]] = t[2]
+        elif t[0] == "F":
+            q = t[2].split(" ", 2)
+            fails.setdefault(t[1], []).append((q[0], int(q[1]), q[2] if len(q) > 2 else ""))
+        elif t[0] == "STAT":
+            stats[t[1]] = int(t[2])
+    return (verdicts, fails, stats), None
+
+
+def macro_case_failing(case_lines, preds, want, tag):
+    r, err = run_macro_cases("\n".join(case_lines) + "\n", preds, tag)
+    if r is None:
+        return False
+    verdicts, fails, _ = r
+    cid = case_lines[0].split()[1]
+    if want[0] == "F":
+        return any(p == want[1] for p, _, _ in fails.get(cid, []))
+    return verdicts.get(cid, "").startswith(want[1])
+
+
+def shrink_macro_case(case_lines, preds, want, tag):
+    head, evs, end = case_lines[0], case_lines[1:-1], case_lines[-1]
+    changed, rounds = True, 0
+    while changed and rounds < 5:
+        changed = False
+        rounds += 1
+        i = len(evs) - 1
+        while i >= 0:
+            trial = evs[:i] + evs[i + 1:]
+            dt = int(evs[i].split()[1])
+            if dt and i < len(evs) - 1:
+                nxt = trial[i].split()
+                nxt[1] = str(int(nxt[1]) + dt)
+                trial[i] = " ".join(nxt)
+            if trial and macro_case_failing([head] + trial + [end], preds, want, tag):
+                evs = trial
+                changed = True
+            i -= 1
+    return [head] + evs + [end]
+
+
+def part_macro(run, part):
+    ensure_corpus()
+    if not build_harness(run, "vh-macro"):
+        return
+    n = part["quick"] if run.tier == "quick" else part["thorough"]
+    gen = "%s/mgen_%s.txt" % (BUILD, run.pid)
+    rc, out = sh("python3 %s/tools/gen_mcases.py --table %s/corpus/corpus_table.txt --prop %s --seed %d --count %d --out %s"
+                 % (ROOT, BUILD, part["profile"], run.seed, n, gen))
+    if rc != 0:
+        raise RuntimeError("generator failed: " + out)
+    geninfo = json.loads(out)
+    cpath = ROOT + "/corpus/macro.txt"
+    corpus = open(cpath).read() if os.path.exists(cpath) else ""
+    text = corpus + open(gen).read()
+    preds = part["preds"]
+    r, err = run_macro_cases(text, preds, run.pid)
+    if r is None:
+        run.add_violation("mismatch", "correspondence run failed: " + err, err, False, "harness-run")
+        return
+    verdicts, fails, stats = r
+    cases = {c[0].split()[1]: c for c in split_cases(text)}
+    run.cov["evaluations"] += len(verdicts)
+    run.cov["traces_validated_against_impl"] += sum(1 for v in verdicts.values() if v == "ok")
+    run.cov["histograms"]["macro_functions"] = geninfo["functions"]
+    run.cov["histograms"]["macro_events"] = geninfo["events"]
+    run.cov["histograms"]["macro_observed"] = stats
+    run.cov["samples"] += geninfo["samples"][:1]
+    run.cov["parts"].append(dict(kind="macro", profile=part["profile"], preds=preds, cases=len(verdicts),
+                                 corpus_functions=sum(1 for _ in open(BUILD + "/corpus/corpus_table.txt"))))
+    # distinct non-trivial: distinct event lists among cases in which some call was served from the cache
+    # and some entry was removed (eviction, expiry or invalidation) — measured by the driver per run, per case here
+    for cid, c in cases.items():
+        body = "|".join(c[1:-1])
+        if " call " in body and verdicts.get(cid) is not None:
+            calls = [e.split() for e in c[1:-1] if e.split()[2] == "call"]
+            keys = set((e[3], e[4]) for e in calls)
+            if len(calls) > len(keys):      # some key is called twice: a hit or a recomputation is exercised
+                run.nontrivial_hashes.add(hashlib.sha1(body.encode()).hexdigest())
+    own = set(p for p in preds.split(",") if p)
+    reported = 0
+    for cid, fl in sorted(fails.items()):
+        for p, idx, detail in fl:
+            if p in own and reported < 3:
+                small = shrink_macro_case(cases[cid], preds, ("F", p), run.pid + "_shrink")
+                what = "oracle %s fails on the implementation at event %d of case %s: %s" % (p, idx, cid, detail)
+                fns = sorted(set(e.split()[3] for e in small[1:-1] if e.split()[2] == "call"))
+                run.add_violation("prop", what, "\n".join(small) + "\n# functions: " + ",".join("f" + x for x in fns),
+                                  True, "%s %s" % (p, detail[:80]))
+                reported += 1
+    if part.get("panic_is_failure"):
+        for cid, v in sorted(verdicts.items()):
+            if (v.startswith("PANIC") or v.startswith("CRASH")) and reported < 3:
+                small = shrink_macro_case(cases[cid], preds, ("V", v.split()[0]), run.pid + "_shrink")
+                run.add_violation("panic", "call panicked: %s (case %s)" % (v, cid), "\n".join(small), True, "panic " + v[:80])
+                reported += 1
+    bad = [(cid, v) for cid, v in sorted(verdicts.items())
+           if v.startswith("MISMATCH") or v.startswith("PANIC") or v.startswith("CRASH")]
+    if bad and reported == 0:
+        cid, v = bad[0]
+        small = shrink_macro_case(cases[cid], preds, ("V", v.split()[0]), run.pid + "_shrink")
+        what = ("correspondence E2/%s broken: model Wrapper.call/world and the macro-generated code disagree (%d of %d cases; first: %s %s); "
+                "no oracle of %s failed on any explored trace" % (part["profile"], len(bad), len(verdicts), cid, v[:240], run.pid))
+        run.add_violation("mismatch", what, "\n".join(small) + "\n# " + v, False, "mismatch " + v[:60])
+    run.cov["histograms"]["macro_timing_discards"] = sum(1 for v in verdicts.values() if v.startswith("SKIP"))
+
 def nontrivial_ids(obs_file):
     """cases whose implementation trace contains an eviction (a stored key disappears on a store) or an expiry"""
     ids, cur, prev_keys, nt = set(), None, set(), False
@@ -349,7 +485,7 @@ def nontrivial_ids(obs_file):
     return ids
 
 
-PART_RUNNERS = {"core": part_core}
+PART_RUNNERS = {"core": part_core, "macro": part_macro}
 
 
 # ---------------------------------------------------------------------------------------
